@@ -29,7 +29,7 @@ def _rel(a, b, tol=1e-9):
 class C04(Machine):
     name = "c04"
     property_id = "C04"
-    runs = {"quick": 60000, "thorough": 2000000}
+    runs = {"quick": 60000, "thorough": 1000000}
     batch = 300
     rule = ("three trees (4-9 leaves) over one namespace and leaf set, 5-40 steps of structural edits interleaved with distance queries "
             "on ordered pairs; distinct = (preceding edit kind, query kind, reference symmetric difference, lengths complete, rooting) with a non-zero reference distance")
@@ -45,7 +45,7 @@ class C04(Machine):
         self.name = name
 
     def gen(self, rng, tier):
-        n = rng.randint(4, 9)
+        n = rng.randint(4, 14 if tier == "thorough" else 9)
         labs = gen.labels(rng, n, "plain")
         rooted = rng.choice([True, False, None])
         pat = rng.choice(["dyadic", "dyadic", "int", "float", "mixed_none", "none", "mixed_zero"])
@@ -53,7 +53,7 @@ class C04(Machine):
         if rng.random() < 0.3:
             trees[1] = trees[0]
         steps = []
-        for _ in range(rng.randint(5, 40)):
+        for _ in range(rng.randint(5, 90 if tier == "thorough" else 40)):
             if rng.random() < 0.5:
                 steps.append({"op": "edit", "kind": rng.choice(EDITS), "t": rng.randrange(3), "k": rng.randrange(10 ** 6),
                               "k2": rng.randrange(10 ** 6), "x": rng.choice([0.25, 0.5, 1.0, 2.0, 3.0]), "rng": rng.getrandbits(32)})
